@@ -29,7 +29,7 @@ use shared::terms::{Term, TriplePattern};
 use shared::triple::Triple;
 use std::collections::{BTreeMap, BTreeSet, HashSet};
 
-const RULE: &str = "three generators: join_shapes (1-2 rules of 1-4 premises drawn from a pattern alphabet with constants / repeated variables / variable predicates in every position over a dense fact set), recursion (randomised templates: transitive closure left/right/non-linear, symmetric, even/odd mutual recursion, same-generation, sub-property via variable predicate, constant-anchored reachability, 3- and 4-premise chains, over chain/cycle/tree/random graphs) and mixed (1-4 rules, 1-4 premises, 1-3 conclusions, numeric filters, one negative stratum, 0-40 facts over 4-8 constants incl. numeric objects); every case x 4 strategies x 3 orders (as generated / facts+rules shuffled / rules first, premises+conclusions shuffled) x 2 runs. Non-trivial = the oracle model contains a derived fact AND (some fact has derivation height >= 2 OR a rule with >= 2 premises derives a non-input fact); distinct by hash of (facts, rules).";
+const RULE: &str = "four generators: join_shapes (1-2 rules of 1-4 premises drawn from a pattern alphabet with constants / repeated variables / variable predicates in every position over a dense fact set), recursion (randomised templates: transitive closure left/right/non-linear, symmetric, even/odd mutual recursion, same-generation, sub-property via variable predicate, constant-anchored reachability, 3- and 4-premise chains, over chain/cycle/tree/random graphs), bulk (1050-1500 triples of one predicate with selective 1-3 premise rules, so that the engine's chunked parallel probe is exercised) and mixed (1-4 rules, 1-4 premises, 1-3 conclusions, numeric filters, one negative stratum, 0-40 facts over 4-8 constants incl. numeric objects); every case x 4 strategies x 3 orders (as generated / facts+rules shuffled / rules first, premises+conclusions shuffled) x 2 runs. Non-trivial = the oracle model contains a derived fact AND (some fact has derivation height >= 2 OR a rule with >= 2 premises derives a non-input fact); distinct by hash of (facts, rules).";
 
 // ---------------------------------------------------------------------------------------
 // lexical programs
@@ -896,7 +896,8 @@ fn in_fragment(cs: &Case) -> bool {
 fn shrink(cs: &Case, st: Strat, target: &Value, order_base: u64, cap: u64) -> (Case, Option<Value>) {
     let mut cur = cs.clone();
     let mut detail = None;
-    let mut budget = 400usize;
+    // number of candidate evaluations, scaled down for large cases
+    let mut budget = (20_000 / cs.facts.len().max(1)).clamp(40, 400);
     'outer: loop {
         for cand in shrink_candidates(&cur) {
             if budget == 0 {
@@ -1350,15 +1351,51 @@ fn gen_recursion(r: &mut Rng, big: bool) -> (Case, usize) {
     (normalise(Case { facts, rules }), template)
 }
 
+/// > 1000 triples of one predicate, so that the hash join splits its probe side into several
+/// rayon chunks and the parallel strategy folds over a large delta; rules are kept selective
+/// (one premise, or anchored on a constant) so that the naive oracle stays cheap.
+fn gen_bulk(r: &mut Rng) -> Case {
+    let k = r.range(150, 400);
+    let n_edges = r.range(1_050, 1_500);
+    let node = |i: usize| format!("n{}", i);
+    let mut set: BTreeSet<Lex> = BTreeSet::new();
+    while set.len() < n_edges {
+        let a = r.below(k);
+        let b = if r.chance(3, 100) { a } else { r.below(k) };
+        set.insert((node(a), "p0".to_string(), node(b)));
+    }
+    for _ in 0..r.range(0, 60) {
+        set.insert((node(r.below(k)), ["p1", "p2"][r.below(2)].to_string(), node(r.below(k))));
+    }
+    let anchor = PT::C(node(r.below(k)));
+    let mut rules = vec![];
+    let n_rules = r.range(1, 2);
+    for _ in 0..n_rules {
+        let rl = match r.below(7) {
+            0 => rule(vec![(v("X"), c("p0"), v("Y"))], vec![(v("Y"), c("q0"), v("X"))]),
+            1 => rule(vec![(anchor.clone(), c("p0"), v("Y")), (v("Y"), c("p0"), v("Z"))], vec![(anchor.clone(), c("q1"), v("Z"))]),
+            2 => rule(vec![(v("X"), c("p0"), v("X"))], vec![(v("X"), c("loop"), v("X"))]),
+            3 => rule(vec![(anchor.clone(), v("P"), v("Y")), (v("Y"), v("P"), v("Z"))], vec![(v("Z"), c("seen"), v("P"))]),
+            4 => rule(vec![(v("Y"), c("p0"), anchor.clone()), (v("X"), c("p0"), v("Y"))], vec![(v("X"), c("q2"), anchor.clone()), (v("Y"), c("q0"), v("X"))]),
+            5 => rule(vec![(v("X"), c("p1"), v("Y")), (v("Y"), c("p0"), v("Z")), (v("Z"), c("p0"), v("W"))], vec![(v("X"), c("q3"), v("W"))]),
+            _ => rule(vec![(v("X"), c("p0"), v("Y")), (v("Y"), c("p0"), v("X"))], vec![(v("X"), c("sym"), v("Y"))]),
+        };
+        rules.push(rl);
+    }
+    let mut facts: Vec<Lex> = set.into_iter().collect();
+    r.shuffle(&mut facts);
+    normalise(Case { facts, rules })
+}
+
 fn gen_mixed(r: &mut Rng) -> Case {
-    let (ne, npd, nv) = (r.range(3, 6), r.range(1, 4), r.range(0, 2));
+    let (ne, npd, nv) = (r.range(3, 6), r.range(1, 3), r.range(0, 2));
     let u = gen_uni(r, ne, npd, nv);
     let negative_program = r.chance(25, 100);
     let filters_program = !u.vpreds.is_empty() && r.chance(60, 100);
     let base = Cfg {
         w_prem: [4, 6, 3, 2],
         w_concl: [6, 3, 1],
-        p_const: r.range(5, 30),
+        p_const: r.range(3, 22),
         p_varpred: if negative_program { 0 } else { *r.pick(&[0, 0, 0, 10, 25]) },
         p_filter: if filters_program { 70 } else { 15 },
         p_value_premise: if filters_program { 35 } else if u.vpreds.is_empty() { 0 } else { 10 },
@@ -1378,8 +1415,8 @@ fn gen_mixed(r: &mut Rng) -> Case {
     }
     let nf = match r.below(10) {
         0 => r.range(0, 3),
-        1..=5 => r.range(4, 20),
-        _ => r.range(15, 40),
+        1..=4 => r.range(8, 24),
+        _ => r.range(20, 40),
     };
     let facts = gen_facts(r, &u, nf);
     normalise(Case { facts, rules })
@@ -1512,22 +1549,30 @@ fn run(ctx: &mut Ctx) {
     // witness is, never what is reported)
     let mut shrunk: HashSet<String> = HashSet::new();
 
-    ctx.phase("join_shapes", ctx.by_tier(4_000, 240_000));
-    while ctx.within(0.30) {
+    ctx.phase("join_shapes", ctx.by_tier(2_400, 240_000));
+    while ctx.within(0.28) {
         let Some(k) = ctx.next_case() else { break };
         let mut r = ctx.rng(k);
         let cs = gen_join_shapes(&mut r);
         run_case(ctx, "join_shapes", k, &cs, cap, &mut shrunk);
     }
-    ctx.phase("recursion", ctx.by_tier(2_400, 120_000));
-    while ctx.within(0.68) {
+    ctx.phase("recursion", ctx.by_tier(1_600, 120_000));
+    while ctx.within(0.62) {
         let Some(k) = ctx.next_case() else { break };
         let mut r = ctx.rng(k);
         let (cs, template) = gen_recursion(&mut r, big);
         ctx.count(&format!("recursion_template.{:02}", template), 1);
         run_case(ctx, "recursion", k, &cs, cap, &mut shrunk);
     }
-    ctx.phase("mixed", ctx.by_tier(5_000, 320_000));
+    ctx.phase("bulk", ctx.by_tier(8, 1_600));
+    while ctx.within(0.72) {
+        let Some(k) = ctx.next_case() else { break };
+        let mut r = ctx.rng(k);
+        let cs = gen_bulk(&mut r);
+        ctx.max("max_input_facts", cs.facts.len() as u64);
+        run_case(ctx, "bulk", k, &cs, cap.saturating_mul(25), &mut shrunk);
+    }
+    ctx.phase("mixed", ctx.by_tier(3_000, 320_000));
     while let Some(k) = ctx.next_case() {
         let mut r = ctx.rng(k);
         let cs = gen_mixed(&mut r);
